@@ -52,7 +52,13 @@ Det(v)    == [in |-> FALSE, v |-> v]
 ValOf(doc, c) == IF c.in THEN Get(doc, c.p) ELSE c.v
 Live(doc, c) == ~c.in \/ Exists(doc, c.p)
 
-St(doc, ctx, ro) == [doc |-> doc, ctx |-> ctx, ro |-> ro, st |-> "ok", env |-> <<>>]
+\* tog: the root document carries EvaluateTogether (eval-all mode); it matters only while the context is the root itself
+St(doc, ctx, ro) == [doc |-> doc, ctx |-> ctx, ro |-> ro, st |-> "ok", env |-> <<>>, tog |-> FALSE]
+KindClass(v) == IF IsScalar(v) THEN "scalar" ELSE v.k
+Together(s) == s.tog /\ s.ctx # <<>> /\ \A i \in DOMAIN s.ctx : s.ctx[i].in /\ s.ctx[i].p = <<>>
+\* copies of the root keep the flag in the implementation; the model does not track copies, so a context holding a
+\* detached value of the root's kind class MAY be together: left open
+MaybeTog(s) == s.tog /\ \E i \in DOMAIN s.ctx : ~s.ctx[i].in /\ KindClass(s.ctx[i].v) = KindClass(s.doc)
 Fail(s, why) == [s EXCEPT !.st = why, !.ctx = <<>>]
 Ok(s) == s.st = "ok"
 Vals(s) == [i \in DOMAIN s.ctx |-> ValOf(s.doc, s.ctx[i])]
@@ -171,7 +177,6 @@ SubVals(oa, ob) ==
   CASE a.k = "null" -> R(b)
     [] a.k = "map" -> RErr
     [] a.k = "seq" -> IF b.k # "seq" THEN RErr
-                      ELSE IF HasMapInside(a) /\ HasMapInside(b) THEN RUnspec
                       ELSE R(SeqV(SelectSeq(a.e, LAMBDA x : ~\E j \in DOMAIN b.e : DeepEq(x, b.e[j]))))
     [] OTHER -> IF ~IsScalar(b) THEN RErr
                 ELSE IF a.k = "num" /\ b.k = "num" THEN R(MkNum(a.n * b.d - b.n * a.d, a.d * b.d, ~(a.int /\ b.int)))
@@ -298,7 +303,8 @@ DoCross(e, s, f(_,_), whenEmpty, short(_)) ==
 
 \* crossFunction: once per input node (a single root document evaluated "together" behaves the same)
 CrossS(e, s, f(_,_), whenEmpty, short(_)) ==
-  IF s.ctx = <<>> THEN DoCross(e, s, f, whenEmpty, short)
+  IF MaybeTog(s) THEN Fail(s, "unspec")
+  ELSE IF s.ctx = <<>> \/ Together(s) THEN DoCross(e, s, f, whenEmpty, short)
   ELSE PerNode(s, LAMBDA acc, c :
          LET r == DoCross(e, [s EXCEPT !.ctx = <<c>>, !.doc = acc.doc], f, whenEmpty, short)
          IN IF ~Ok(r) THEN r ELSE [r EXCEPT !.ctx = acc.ctx \o r.ctx])
@@ -389,7 +395,7 @@ Ev(e, s) ==
                              B == Ev(e.r, [s EXCEPT !.ctx = <<c>>, !.doc = a.doc, !.env = EnvSet(s.env, e.l.r.name, <<bound>>)]) IN
                          IF ~Ok(B) THEN B ELSE Emit([a EXCEPT !.doc = B.doc], B.ctx),
                        [acc EXCEPT !.doc = Src.doc], Src.ctx)
-            IN IF s.ctx = <<>> THEN Fail(s, "unspec") ELSE PerNode(s, loop)
+            IN IF s.ctx = <<>> \/ MaybeTog(s) THEN Fail(s, "unspec") ELSE PerNode(s, loop)
          ELSE LET L == Ev(e.l, s) IN IF ~Ok(L) THEN L ELSE AsEnv(s, Ev(e.r, [L EXCEPT !.env = s.env]))
     [] e.op = "UNION" ->
          LET L == Ev(e.l, s) IN IF ~Ok(L) THEN L ELSE
@@ -400,6 +406,13 @@ Ev(e, s) ==
     [] e.op = "GET_VARIABLE" -> [s EXCEPT !.ctx = EnvGet(s.env, e.name)]
     [] e.op = "COLLECT" ->
          IF s.ctx = <<>> THEN [s EXCEPT !.ctx = <<Det(SeqV(<<>>))>>]
+         ELSE IF MaybeTog(s) THEN Fail(s, "unspec")
+         ELSE IF Together(s) THEN
+              \* collectTogether: every node read-only, all results in ONE sequence
+              LET all == PerNode(s, LAMBDA acc, c :
+                           LET r == Ev(e.r, RO([s EXCEPT !.ctx = <<c>>, !.doc = acc.doc])) IN
+                           IF ~Ok(r) THEN r ELSE Emit([acc EXCEPT !.doc = r.doc], Dets(Vals(r))))
+              IN IF ~Ok(all) THEN all ELSE [all EXCEPT !.ctx = <<Det(SeqV(Vals(all)))>>, !.ro = s.ro]
          ELSE PerNode(s, LAMBDA acc, c :
                 LET r == Ev(e.r, [s EXCEPT !.ctx = <<c>>, !.doc = acc.doc]) IN
                 IF ~Ok(r) THEN r ELSE Emit([acc EXCEPT !.doc = r.doc], <<Det(SeqV(Vals(r)))>>))
@@ -582,5 +595,6 @@ Ev(e, s) ==
 EvMore(e, s) == Fail(s, "unspec")
 
 Run(e, doc) == Ev(e, St(doc, <<InDoc(<<>>)>>, FALSE))
+RunTog(e, doc) == Ev(e, [St(doc, <<InDoc(<<>>)>>, FALSE) EXCEPT !.tog = TRUE])
 Results(r) == Vals(r)
 =============================================================================
